@@ -646,8 +646,9 @@ class Machine(object):
             self.models.remove(mod)
         if len(self._transition_queue) > 0:
             # the first element of the list is currently executed. Keeping it for further Machine._process(ing)
+            queue = list(self._transition_queue)
             self._transition_queue = deque(
-                [self._transition_queue[0]] + [e for e in self._transition_queue if e.args[0].model not in models])
+                [queue[0]] + [e for e in queue[1:] if e.args[0].model not in models])
 
     @classmethod
     def _create_transition(cls, *args, **kwargs):
